@@ -312,6 +312,12 @@ func init() {
 			in.sched().syncMapPts = true
 			return nil
 		},
+		// MapRaces watches the maps gorm makes from here on for accesses that no
+		// synchronisation orders (race.go).
+		"MapRaces": func(in *Interp, _ *ssa.Function, a []Value, c *frame) Value {
+			in.hbEnable()
+			return nil
+		},
 		"StartAll": func(in *Interp, _ *ssa.Function, a []Value, c *frame) Value {
 			in.schedPoint("start")
 			return nil
@@ -838,7 +844,9 @@ func init() {
 			if !in.onceDone[p] {
 				in.onceDone[p] = true
 				in.callFunc(a[1], nil, c)
+				in.hbRelease(p)
 			}
+			in.hbAcquire(p)
 			return nil
 		},
 		// sync.Pool: items that were Put are handed out again (LIFO), like the
@@ -846,6 +854,7 @@ func init() {
 		"(*sync.Pool).Get": func(in *Interp, _ *ssa.Function, a []Value, c *frame) Value {
 			p := a[0].(*Value)
 			key := "pool:" + fmt.Sprintf("%p", p)
+			in.hbAcquire(p)
 			if st, ok := in.natives[key].(sliceV); ok && st.n > 0 {
 				v := *st.at(st.n - 1)
 				st.n--
@@ -864,6 +873,7 @@ func init() {
 			key := "pool:" + fmt.Sprintf("%p", p)
 			st, _ := in.natives[key].(sliceV)
 			in.natives[key] = appendVals(st, []Value{a[1]})
+			in.hbRelease(p)
 			return nil
 		},
 		"(*sync.WaitGroup).Add": func(in *Interp, _ *ssa.Function, a []Value, _ *frame) Value {
@@ -879,6 +889,7 @@ func init() {
 			p := a[0].(*Value)
 			n := in.natives["wg:"+fmt.Sprintf("%p", p)].(*Term)
 			in.natives["wg:"+fmt.Sprintf("%p", p)] = mk("bvsub", 64, n, bv(64, 1))
+			in.hbRelease(p)
 			in.schedPoint("wg.Done")
 			return nil
 		},
@@ -889,6 +900,7 @@ func init() {
 				n, _ := in.natives[key].(*Term)
 				return n == nil || (n.isConst && n.c == 0)
 			}, "WaitGroup.Wait")
+			in.hbAcquire(p)
 			return nil
 		},
 		"(*sync.Map).Load":        syncMapOp,
@@ -1390,22 +1402,30 @@ func syncMapOp(in *Interp, fn *ssa.Function, a []Value, caller *frame) Value {
 		v, ok := in.mapGet(m, a[1])
 		if !ok {
 			v = iface{}
+			in.hbAcquire(syncMapMiss{m})
+		} else {
+			in.hbAcquire(syncMapKey{m, in.mapIndex(m, a[1])})
 		}
 		return tupleV{v, bl(ok)}
 	case "Store":
 		in.mapSet(m, a[1], a[2])
+		in.hbRelease(syncMapKey{m, in.mapIndex(m, a[1])})
 		return nil
 	case "LoadOrStore":
 		if v, ok := in.mapGet(m, a[1]); ok {
+			in.hbAcquire(syncMapKey{m, in.mapIndex(m, a[1])})
 			return tupleV{v, tTrue}
 		}
+		in.hbAcquire(syncMapMiss{m})
 		in.mapSet(m, a[1], a[2])
+		in.hbRelease(syncMapKey{m, in.mapIndex(m, a[1])})
 		return tupleV{a[2], tFalse}
 	case "Delete":
 		for i := range m.keys {
 			if in.keyEq(m.keys[i], a[1]) {
 				m.keys = append(append([]Value{}, m.keys[:i]...), m.keys[i+1:]...)
 				m.vals = append(append([]Value{}, m.vals[:i]...), m.vals[i+1:]...)
+				in.hbSyncMapDeleted(m, i)
 				break
 			}
 		}
@@ -1414,6 +1434,7 @@ func syncMapOp(in *Interp, fn *ssa.Function, a []Value, caller *frame) Value {
 		keys := append([]Value{}, m.keys...)
 		vals := append([]Value{}, m.vals...)
 		for i := range keys {
+			in.hbAcquire(syncMapKey{m, i})
 			r := in.callFunc(a[1], []Value{keys[i], vals[i]}, caller)
 			if !in.e.branch(r.(*Term)) {
 				break
@@ -1429,20 +1450,27 @@ func atomicAdd(in *Interp, fn *ssa.Function, a []Value, _ *frame) Value {
 	t := (*p).(*Term)
 	n := mk("bvadd", t.w, t, a[1].(*Term))
 	*p = n
+	in.hbAcquire(p)
+	in.hbRelease(p)
 	return n
 }
 func atomicLoad(in *Interp, fn *ssa.Function, a []Value, _ *frame) Value {
+	in.hbAcquire(a[0].(*Value))
 	return *(a[0].(*Value))
 }
 func atomicStore(in *Interp, fn *ssa.Function, a []Value, _ *frame) Value {
 	*(a[0].(*Value)) = a[1]
+	in.hbAcquire(a[0].(*Value))
+	in.hbRelease(a[0].(*Value))
 	return nil
 }
 func atomicCAS(in *Interp, fn *ssa.Function, a []Value, _ *frame) Value {
 	p := a[0].(*Value)
 	t := (*p).(*Term)
+	in.hbAcquire(p)
 	if in.e.branch(mkEq(t, a[1].(*Term))) {
 		*p = a[2]
+		in.hbRelease(p)
 		return tTrue
 	}
 	return tFalse
